@@ -4,11 +4,14 @@ import (
 	"bytes"
 	"context"
 	"encoding/json"
+	"errors"
 	"fmt"
 	"os"
 	"os/exec"
 	"path/filepath"
+	"runtime"
 	"strings"
+	"sync"
 	"sync/atomic"
 	"syscall"
 	"time"
@@ -27,6 +30,8 @@ func init() {
 		if args[0] == "i386" {
 			info = arch.I386
 		}
+		// one OS thread for the whole extraction: strace counts injected faults per thread
+		runtime.LockOSThread()
 		res, err := disasm.ExtractSyscalls(info, args[1])
 		out := map[string]any{"n": len(res), "nil": res == nil}
 		if err != nil {
@@ -568,7 +573,7 @@ func checkC16(tier, replay string) int {
 	ctx.Cov["max_lines"] = maxLines
 	ctx.Cov["long_function_sweep_max"] = c16LongFunctions
 	ctx.Cov["unresolvable_site_count_sweep_max"] = c16ManyUnresolved
-	ctx.Cov["rule"] = fmt.Sprintf("all texts of <= %d lines over a %d-shape line alphabet (5 kinds of function marker incl. 'TEXT ', bare 'TEXT' and a generic symbol containing blanks, raw syscall instruction with and without location fields, the other architecture's raw instruction, number loads into AX/BP/stack, negative/unparsable/unknown numbers, the XOR idiom, calls of syscall.Syscall with and without location fields, neutral, empty and a 70000-byte line) for both parsers, with and without trailing newline, parsed by the real ExtractSyscalls under recover and compared with an independent site-model parser (number, name, caller, location), with the oracle tables, for monotonicity under appended functions and for an error whenever the text cannot be read to the end; plus the real `go tool objdump` output of a sample Go program built for amd64 and 386 (whole, and cut at function boundaries) compared with a text-level site model written without regular expressions, generated multi-function listings (all twelve wrapper entry points as callees and as containing functions; function markers of 600 and 5000 bytes; also with numbers carrying the x32 marker bit 0x40000000 on top of a valid number), a size sweep (load and site n neutral instructions apart for every n up to the bound in long_function_sweep_max, alone and followed by another function), a count sweep (m functions whose site has no determinable number - no load, an unparsable number, an unknown number - between two ordinary sites, for every m up to the bound in unresolvable_site_count_sweep_max), the same three listings read through a named pipe written in pieces, a read error injected (strace) at every read call of 3 listings, and every sequence of <= 3 (thorough 4) calls over {x86_64, x32, i386, arm} on one listing in one fresh process (each x86_64 / i386 answer must be the listing's sites whatever was called before); non-trivial = parses that report at least one syscall", maxLines, shCount)
+	ctx.Cov["rule"] = fmt.Sprintf("all texts of <= %d lines over a %d-shape line alphabet (5 kinds of function marker incl. 'TEXT ', bare 'TEXT' and a generic symbol containing blanks, raw syscall instruction with and without location fields, the other architecture's raw instruction, number loads into AX/BP/stack, negative/unparsable/unknown numbers, the XOR idiom, calls of syscall.Syscall with and without location fields, neutral, empty and a 70000-byte line) for both parsers, with and without trailing newline, parsed by the real ExtractSyscalls under recover and compared with an independent site-model parser (number, name, caller, location), with the oracle tables, for monotonicity under appended functions and for an error whenever the text cannot be read to the end; plus the real `go tool objdump` output of a sample Go program built for amd64 and 386 (whole, and cut at function boundaries) compared with a text-level site model written without regular expressions, generated multi-function listings (all twelve wrapper entry points as callees and as containing functions; function markers of 600 and 5000 bytes; also with numbers carrying the x32 marker bit 0x40000000 on top of a valid number), a size sweep (load and site n neutral instructions apart for every n up to the bound in long_function_sweep_max, alone and followed by another function), a count sweep (m functions whose site has no determinable number - no load, an unparsable number, an unknown number - between two ordinary sites, for every m up to the bound in unresolvable_site_count_sweep_max), the same three listings read through a named pipe written in pieces, a read error injected (strace) at every read call of 3 listings (EIO once; then EAGAIN, ENOMEM and EIO once and from that call on for good, EINTR once, EAGAIN on every second call - extraction has to return within a 60 s horizon and a nil error still means the whole text), and every sequence of <= 3 (thorough 4) calls over {x86_64, x32, i386, arm} on one listing in one fresh process (each x86_64 / i386 answer must be the listing's sites whatever was called before); non-trivial = parses that report at least one syscall", maxLines, shCount)
 	ctx.Assumptions = []string{"site model: the number is taken from the nearest preceding number-loading instruction of the same function after the previous detected site; raw sites inside syscall.Syscall wrappers are not sites", "strace fault injection (-e inject=read:error=EIO:when=N) realises read failures"}
 	ctx.Sample(map[string]any{"text": []string{"TEXT main.f0(SB) /src/f.go", "  f.go:1\t0x401001\t0f05\tMOVQ $0x3b, AX", "TEXT main.f2(SB) /src/f.go", "  f.go:3\t0x401003\t0f05\tSYSCALL"}, "expected": "no syscall: the load belongs to another function"})
 	return ctx.Finish()
@@ -680,6 +685,8 @@ func c16Listings(ctx *evid.Ctx, check checkTextAdapter, tier string) {
 }
 
 var c16LongFunctions, c16ManyUnresolved int
+var c16FaultKinds sync.Map
+var errC16Horizon = errors.New("horizon reached")
 
 // c16ReadFaults: for a few listings, fail the N-th read of the file for every N; also unreadable inputs.
 func c16ReadFaults(ctx *evid.Ctx, scratch string) int64 {
@@ -690,9 +697,17 @@ func c16ReadFaults(ctx *evid.Ctx, scratch string) int64 {
 		defer cancel()
 		argv := append(append([]string{}, wrapper...), self, "child", "extract", archName, path)
 		cmd := exec.CommandContext(cctx, argv[0], argv[1:]...)
+		// at the horizon the tracer and the traced child go together (a child that merely lost its tracer would carry
+		// on without the injected fault and print an ordinary result)
+		cmd.SysProcAttr = &syscall.SysProcAttr{Setpgid: true}
+		cmd.Cancel = func() error { return syscall.Kill(-cmd.Process.Pid, syscall.SIGKILL) }
+		cmd.WaitDelay = 5 * time.Second
 		var so, se bytes.Buffer
 		cmd.Stdout, cmd.Stderr = &so, &se
 		err := cmd.Run()
+		if cctx.Err() == context.DeadlineExceeded {
+			return nil, fmt.Errorf("%w (no result after 60 s; stderr=%.200s)", errC16Horizon, se.String())
+		}
 		var out map[string]any
 		if json.Unmarshal(bytes.TrimSpace(so.Bytes()), &out) != nil {
 			return nil, fmt.Errorf("no result (err=%v, stderr=%.300s)", err, se.String())
@@ -772,6 +787,7 @@ func c16ReadFaults(ctx *evid.Ctx, scratch string) int64 {
 				ctx.Violation("C16:fault:pipe-partial-without-error", fmt.Sprintf("a %d-byte listing read through a named pipe (written in pieces of %d bytes) gave nil error and %d of %d syscalls", b.Len(), chunk, got, total), map[string]any{"listing_functions": nFuncs, "pipe_chunk": chunk})
 			}
 		}
+		reads := 40
 		for n := 1; n <= 40; n++ {
 			out, err := run([]string{"strace", "-f", "-o", "/dev/null", "-P", path, "-e", "trace=read", "-e", fmt.Sprintf("inject=read:error=EIO:when=%d", n)}, "x86_64", path)
 			runs++
@@ -784,7 +800,31 @@ func c16ReadFaults(ctx *evid.Ctx, scratch string) int64 {
 				ctx.Violation("C16:fault:partial-without-error", fmt.Sprintf("read #%d of a %d-byte listing failed with EIO, yet ExtractSyscalls returned nil error and %d of %d syscalls", n, b.Len(), got, total), map[string]any{"listing_functions": nFuncs, "failing_read": n})
 			}
 			if out["err"] == nil && got == total {
+				reads = n - 1
 				break // the injected read index is beyond the reads of this file
+			}
+		}
+		// other kinds of read failure at every read call: errors that invite a retry (EAGAIN, EINTR, ENOMEM), once and
+		// from that call on for good. Whatever the library does about them it has to come back (horizon: 60 s for a
+		// listing that is parsed in milliseconds), and a nil error still means the whole text. (A persistent EINTR is
+		// not offered: Go's own os.File.Read repeats the call on EINTR, so that hang would not be the library's.)
+		for _, fk := range []struct{ errno, when string }{{"EAGAIN", "%d"}, {"EAGAIN", "%d+"}, {"EINTR", "%d"}, {"ENOMEM", "%d"}, {"ENOMEM", "%d+"}, {"EIO", "%d+"}, {"EAGAIN", "%d+2"}} {
+			for n := 1; n <= reads; n++ {
+				when := fmt.Sprintf(fk.when, n)
+				out, err := run([]string{"strace", "-f", "-o", "/dev/null", "-P", path, "-e", "trace=read", "-e", "inject=read:error=" + fk.errno + ":when=" + when}, "x86_64", path)
+				runs++
+				c16FaultKinds.Store(fk.errno+":"+strings.Replace(fk.when, "%d", "N", 1), true)
+				if errors.Is(err, errC16Horizon) {
+					ctx.Violation("C16:fault:no-termination", fmt.Sprintf("with read(2) answering %s (strace when=%s) on a %d-byte listing, ExtractSyscalls did not return: %v", fk.errno, when, b.Len(), err), map[string]any{"listing_functions": nFuncs, "errno": fk.errno, "when": when})
+					break
+				}
+				if err != nil {
+					ctx.Violation("C16:fault:crash", "extraction crashed under an injected read error: "+err.Error(), map[string]any{"listing": li, "errno": fk.errno, "when": when})
+					continue
+				}
+				if got := int(out["n"].(float64)); out["err"] == nil && got < total {
+					ctx.Violation("C16:fault:partial-without-error", fmt.Sprintf("read(2) answering %s (strace when=%s) on a %d-byte listing, yet ExtractSyscalls returned nil error and %d of %d syscalls", fk.errno, when, b.Len(), got, total), map[string]any{"listing_functions": nFuncs, "errno": fk.errno, "when": when})
+				}
 			}
 		}
 	}
